@@ -331,6 +331,49 @@ def indent(repo):
     if total["nl"] < 2:
         res.add(f"{TOK}|{f.name}|newline", f"only {total['nl']} newline-token emission(s): every non-blank line (comment-only "
                 "and ordinary) must end in one newline token", TOK, f.line, f.name)
+    # Indent is emitted only when the new leading whitespace *extends* the innermost open level, and its text is
+    # exactly the extension; dedent levels are found by equality and an unmatched level is an error
+    res.instances += 4
+    pushes = [n for n in ast.walk(f.node) if isinstance(n, ast.Call) and isinstance(n.func, ast.Attribute)
+              and n.func.attr == "append" and ast.unparse(n.func.value) == "indent_stack" and n.args]
+    for pu in pushes:
+        pushed = ast.unparse(pu.args[0])
+        guard = None
+        node = pu
+        while node is not None and node is not f.node:
+            parent = m.parent(node)
+            if isinstance(parent, ast.If) and any(node is st or node in ast.walk(st) for st in parent.body):
+                guard = parent
+                break
+            node = parent
+        want = f"{pushed}.startswith(indent_stack[-1])"
+        if guard is None or ast.unparse(guard.test) != want:
+            res.add(f"{TOK}|{f.name}|indent-guard", f"a new indentation level `{pushed}` is opened under "
+                    f"`{ast.unparse(guard.test) if guard is not None else 'no condition'}`; it must extend the current level "
+                    f"(`{want}`), otherwise inconsistent whitespace is accepted and the Indent text is not the added prefix",
+                    TOK, pu.lineno, f.name)
+        elif guard is not None:
+            texts = [ast.unparse(c.args[1]) for st in guard.body for c in ast.walk(st)
+                     if isinstance(c, ast.Call) and token_kind(c) == "Indent" and len(c.args) >= 2]
+            if texts and texts[0] != f"{pushed}[len(indent_stack[-1]):]":
+                res.add(f"{TOK}|{f.name}|indent-text", f"Indent token text is `{texts[0]}`, not the added whitespace "
+                        f"`{pushed}[len(indent_stack[-1]):]`", TOK, guard.lineno, f.name)
+    # dedent search loop
+    ded = None
+    for n in ast.walk(f.node):
+        if isinstance(n, ast.For) and any(isinstance(x, ast.Delete) for x in ast.walk(n)) and "indent_stack" in ast.unparse(n.iter):
+            ded = n
+    if ded is None:
+        res.add(f"{TOK}|{f.name}|dedent-loop", "the loop closing indentation levels was not found", TOK, f.line, f.name)
+    else:
+        first = ded.body[0] if ded.body else None
+        okeq = isinstance(first, ast.If) and isinstance(first.test, ast.Compare) and isinstance(first.test.ops[0], ast.Eq) \
+            and "indent_stack[" in ast.unparse(first.test) and any(isinstance(x, ast.Break) for x in first.body)
+        if not okeq:
+            res.add(f"{TOK}|{f.name}|dedent-match", "closing levels no longer stops at the level whose whitespace *equals* the "
+                    "line's leading whitespace", TOK, ded.lineno, f.name)
+        if not ded.orelse or not any(isinstance(x, ast.Return) for st in ded.orelse for x in ast.walk(st)):
+            res.add(f"{TOK}|{f.name}|dedent-error", "an indentation that matches no open level is no longer an error", TOK, ded.lineno, f.name)
     res.samples = [f"{f.fq}: {total}"]
     res.analysed = [TOK]
     return res
